@@ -109,7 +109,10 @@ TestKinds == (IF HasT("grpc") THEN {"grpc"} ELSE {}) \cup (IF HasT("grpc") /\ Ha
              \cup (IF HasT("rest") THEN {"rest"} ELSE {})
 RequiredTests == { [rpc |-> SnakeOf[r], kind |-> k, pager |-> FALSE] : r \in LibraryRpcs, k \in TestKinds }
            \cup { [rpc |-> SnakeOf[r], kind |-> k, pager |-> TRUE] : r \in Paged, k \in TestKinds }
-           \cup { [rpc |-> m, kind |-> k, pager |-> FALSE] : m \in Mixins, k \in TestKinds }
+           \* mixins configured in the service YAML come with http rules and are tested on every transport; the legacy
+           \* add-iam-methods option exposes the IAM RPCs on the gRPC clients only (no http rule exists for them)
+           \cup { [rpc |-> m, kind |-> k, pager |-> FALSE] : m \in Mixins,
+                   k \in (IF Has("o_mixins") THEN TestKinds ELSE TestKinds \ {"rest"}) }
 \* verdict on one observed run of the emitted suite
 SuiteOk(tests, failures, errors) == failures = 0 /\ errors = 0 /\ RequiredTests \subseteq tests
 
